@@ -13,7 +13,7 @@ LEVEL_TEXT = ("Differential testing between the five public decode entry points:
               "fast-packet messages are delivered frame by frame through the frame-level formats and pre-assembled through the others.")
 TECHNIQUE = "differential testing between five format front-ends on reference-rendered frames (Hypothesis)"
 RULE = ("database PGN x source x destination (PDU1) x priority x data {accepted payload of the definition, arbitrary bytes, 1..8 bytes} x format "
-        "variants; single-frame: 5 formats, fast-packet: 3 frame-level formats + plain non-combined vs Actisense + plain combined, with real time passing between frames and with both format orders on one decoder; oracle: all "
+        "variants; single-frame: 5 formats, fast-packet: 3 frame-level formats + plain non-combined vs Actisense + plain combined, with real time passing between frames and with both format orders on one decoder, and two messages of one PGN from confusable addressings (same digits when written together, swapped, high bit) alternating frame by frame on one decoder; oracle: all "
         "formats return the same (id, PGN, source, destination, priority, fields) or none returns a message; non-trivial = data neither "
         "palindromic nor all-0xFF, or fast-packet; distinct = (pgn, addressing, data)")
 ASSUMPTIONS = [
@@ -111,6 +111,59 @@ def run_fast(pgn, src, dest, prio, payload, seq, variant):
     return out
 
 
+def confusable(src, dest, pdu1):
+    """Addressings that are easy to confuse with (src, dest): same text when the two numbers are written without a separator in hex or
+    decimal, swapped, or differing only in a high bit."""
+    out = set()
+    if pdu1:
+        for fmt, base in (("%X", 16), ("%d", 10)):
+            t = fmt % src + fmt % dest
+            for cut in range(1, len(t)):
+                a, b = t[:cut], t[cut:]
+                if (a[0] == "0" and len(a) > 1) or (b[0] == "0" and len(b) > 1):
+                    continue
+                a, b = int(a, base), int(b, base)
+                if a <= 253 and b <= 255:
+                    out.add((a, b))
+        out.add((dest if dest <= 253 else src, src))
+        out.add((src, dest ^ 0x80))
+    out.add(((src ^ 0x80) if (src ^ 0x80) <= 253 else src ^ 0x40, dest))
+    out.discard((src, dest))
+    return sorted(out)
+
+
+def run_interleaved(pgn, prio, a, b):
+    """a, b = (src, dest, payload, seq): two messages of one PGN with different addressing, frames alternating on ONE decoder; each must
+    equal its pre-assembled delivery."""
+    from nmea2000.decoder import NMEA2000Decoder
+    d = NMEA2000Decoder()
+    fa, fb = wire.segment(a[2], a[3]), wire.segment(b[2], b[3])
+    got = {"a": None, "b": None}
+    order = []
+    for i in range(max(len(fa), len(fb))):
+        if i < len(fa):
+            order.append(("a", a, fa[i], i == len(fa) - 1))
+        if i < len(fb):
+            order.append(("b", b, fb[i], i == len(fb) - 1))
+    for name, m, fr, last in order:
+        try:
+            r = d.decode_tcp(wire.ebyte(wire.ident(pgn, m[0], m[1], prio), fr))
+        except Exception:
+            r = None
+        if r is not None and not last:
+            got[name] = ("early", canon(r))
+        elif last and got[name] is None:
+            got[name] = canon(r)
+    out = {}
+    for name, m in (("a", a), ("b", b)):
+        try:
+            whole = canon(NMEA2000Decoder().decode_basic_string(wire.plain(pgn, m[0], m[1], prio, m[2], "2024-01-02-03:04:05.678", False), already_combined=True))
+        except Exception:
+            whole = None
+        out[name] = {"ebyte-interleaved": got[name], "plain-combined": whole}
+    return out
+
+
 def compare(outcomes, case):
     names = sorted(outcomes)
     ref = names[0]
@@ -177,6 +230,29 @@ def _work(ctx: Ctx, item):
                 ctx.klass("fast_all_decode" if all(v is not None for v in outs.values()) else "fast_some_none")
                 return compare(outs, case)
             ctx.hyp(onef, st.integers(0, 253), dests, st.integers(0, 7), pl, st.integers(0, 7), variants, max_examples=n, name="fast")
+
+            # two messages of the PGN from confusable addressings, frames alternating on one decoder
+            @st.composite
+            def pairs(draw, pdu1=pdu1, dests=dests, pl=pl):
+                if pdu1 and draw(st.booleans()):
+                    # few digits: many ways to read the two numbers written together
+                    src, dest = draw(st.integers(1, 25)), draw(st.integers(0, 40))
+                else:
+                    src, dest = draw(st.integers(0, 253)), draw(dests)
+                other = draw(st.sampled_from(confusable(src, dest, pdu1)))
+                return (src, dest, draw(pl), draw(st.integers(0, 7))), (other[0], other[1], draw(pl), draw(st.integers(0, 7)))
+
+            def onei(prio, ab, d=d):
+                a, b = ab
+                ctx.count()
+                ctx.nt((d.pgn, "interleaved", a, b))
+                ctx.klass("fast_interleaved")
+                case = {"pgn": d.pgn, "priority": prio, "interleaved": [[a[0], a[1], a[2].hex(), a[3]], [b[0], b[1], b[2].hex(), b[3]]], "fast": True}
+                res = []
+                for name, outs in run_interleaved(d.pgn, prio, a, b).items():
+                    res += [(bk + "|interleaved", w, c) for bk, w, c in compare(outs, case)]
+                return res
+            ctx.hyp(onei, st.integers(0, 7), pairs(), max_examples=max(n // 2, 10), name="interleaved")
         if d.index % 60 == 0:
             ctx.sample({"pgn": d.pgn, "definition": key, "fast": d.fast})
 
@@ -192,6 +268,12 @@ def run(ctx: Ctx):
 
 
 def replay(ctx: Ctx, case):
+    if case.get("interleaved"):
+        a, b = [(x[0], x[1], bytes.fromhex(x[2]), x[3]) for x in case["interleaved"]]
+        res = []
+        for name, outs in run_interleaved(case["pgn"], case["priority"], a, b).items():
+            res += [(bk + "|interleaved", w, c) for bk, w, c in compare(outs, case)]
+        return res
     data = bytes.fromhex(case["data_hex"])
     v = tuple(case["variant"])
     if case.get("fast"):
